@@ -389,6 +389,7 @@ structure ECtx where
   aliases : List (Str × Val)         -- compile-time aliases (`default`, `attrs`)
   repeats : List (Str × RepItem)     -- the RepeatDict
   pyBuiltins : List String           -- names of Python builtins (Gen)
+  macroNames : List Str := []        -- the macros the template defines
   deriving Inhabited
 
 structure ESt where
@@ -564,6 +565,15 @@ def subscript (c : ECtx) (v i : Val) : EM Val :=
       | some _ => pure (.repeatItem k)
       | none => do let r ← keyRepr c i; emRaise "KeyError" r
     | _ => emUnsupported "repeat key class"
+  | .macros =>
+    match i with
+    | .str k =>
+      -- `Macros.__getitem__`: `name.replace('-', '_')`, then `getattr(template, "_render_" + name)`
+      let k' := k.map (fun ch => if ch == 45 then 95 else ch)
+      match c.macroNames.find? (fun n => n.map (fun ch => if ch == 45 then 95 else ch) == k') with
+      | some n => pure (.macro (some n))
+      | none => emRaise "KeyError" (lit "Macro does not exist: '" ++ k' ++ lit "'.")
+    | _ => emUnsupported "macro key class"
   | _ => emUnsupported "subscript on this value"
 
 def asInt : Val → Option Int
